@@ -521,8 +521,9 @@ def validate(ctx, pid, trace, jobs, label, max_rounds=6):
             # inside / behind the alternatives of a concurrent execution: TLC reports the furthest record reached
             # by ANY linearization
             owner = event_owner(bad) or {"C01", "C02", "C08"}
-            what = (f"no linearization of the overlapping calls of the concurrent execution is explained by the "
-                    f"specification (furthest: {describe(bad)})")
+            what = (f"concurrent execution (publisher thread || subscriber thread): whatever linearization of the "
+                    f"overlapping calls is assumed, the specification cannot explain the history (furthest record reached: "
+                    f"{describe(bad)})")
         else:
             owner = event_owner(bad)
             what = f"the specification cannot explain {describe(bad)}"
@@ -1100,6 +1101,26 @@ def concurrent_phase(ctx, pid, mode_extra=None):
     if total["overlapping"] == 0:
         raise vp.ToolError("vacuous concurrent phase: no execution with overlapping calls")
     ctx.coverage["concurrent_phase"] = total
+    if not ctx.quick and not ctx.violations:
+        # binding self-test: the recipient count of the concurrent send is changed in EVERY linearization
+        runs = vp.split_runs(vp.read_ndjson(os.path.join(d, "conc-dfs.ndjson")))
+        for run in runs:
+            if any(r.get("k") == "alt" for r in run):
+                bad = [dict(r) for r in run]
+                k0 = next(i for i, r in enumerate(bad) if r.get("k") == "alt")
+                for r in bad[k0:]:
+                    if r.get("a") == "send" and r.get("r") == "ok":
+                        r["n"] = 1 - r["n"]
+                    if r.get("k") == "altjoin" and r.get("to") == 1:
+                        break
+                sp = ctx.path("selftest", "conc_recipients_changed.ndjson")
+                vp.write_ndjson(sp, bad)
+                dd, name = trace_module(ctx, pid)
+                v = vp.tlc_trace(dd, name, sp, libs=["api"])
+                if v.accepted:
+                    raise vp.ToolError("binding self-test failed: corrupted concurrent execution was accepted")
+                ctx.coverage.setdefault("selftest", {})["conc_recipients_changed"] = {"rejected_at_record": v.pos}
+                break
 
 
 def regen_witnesses():
